@@ -317,4 +317,11 @@ class DelayedS3Writer(S3Limits):
         return {"Bucket": mpu.bucket, "Key": mpu.key, "ETag": etag}
 
     def __dask_tokenize__(self):
-        return ("odc.DelayedS3Writer", self.mpu.bucket, self.mpu.key)
+        return (
+            "odc.DelayedS3Writer",
+            self.mpu.bucket,
+            self.mpu.key,
+            # same bucket/key on another endpoint or account is another object
+            self.mpu.endpoint_url,
+            self.mpu.profile,
+        )
